@@ -25,14 +25,14 @@ type isolatedFacts struct {
 	NumExecFn int      `json:"numExecuteMethods"`
 }
 
-func srcOf(fset *token.FileSet, n ast.Node) string {
+func isoSrcOf(fset *token.FileSet, n ast.Node) string {
 	var b bytes.Buffer
 	_ = printer.Fprint(&b, fset, n)
 	return strings.Join(strings.Fields(b.String()), " ")
 }
 
-// flagCall recognises `<recv>.<flag>.<Method>(<bool literal>)` and renders it as "<flag>.<Method>(<arg>)".
-func flagCall(e ast.Expr) (string, bool) {
+// isoFlagCall recognises `<recv>.<flag>.<Method>(<bool literal>)` and renders it as "<flag>.<Method>(<arg>)".
+func isoFlagCall(e ast.Expr) (string, bool) {
 	c, ok := e.(*ast.CallExpr)
 	if !ok || len(c.Args) != 1 {
 		return "", false
@@ -65,7 +65,7 @@ func isolatedCanon(p *pkgInfo, s ast.Stmt) string {
 		}
 		w, ok := as.Lhs[0].(*ast.Ident)
 		cond, ok2 := v.Cond.(*ast.Ident)
-		call, ok3 := flagCall(as.Rhs[0])
+		call, ok3 := isoFlagCall(as.Rhs[0])
 		if !ok || !ok2 || !ok3 || cond.Name != w.Name || len(v.Body.List) != 1 {
 			break
 		}
@@ -75,13 +75,13 @@ func isolatedCanon(p *pkgInfo, s ast.Stmt) string {
 		}
 		res := "?"
 		if c, ok := ret.Results[0].(*ast.CallExpr); ok {
-			res = noSpace(types.ExprString(c.Fun))
+			res = rxNoSpace(types.ExprString(c.Fun))
 		} else {
-			res = noSpace(types.ExprString(ret.Results[0]))
+			res = rxNoSpace(types.ExprString(ret.Results[0]))
 		}
 		return "if w:=" + call + ";w return " + res
 	case *ast.DeferStmt:
-		if call, ok := flagCall(v.Call); ok {
+		if call, ok := isoFlagCall(v.Call); ok {
 			return "defer " + call
 		}
 	case *ast.ReturnStmt:
@@ -91,14 +91,14 @@ func isolatedCanon(p *pkgInfo, s ast.Stmt) string {
 				if m, ok := c.Fun.(*ast.SelectorExpr); ok {
 					if f, ok := m.X.(*ast.SelectorExpr); ok {
 						if _, ok := f.X.(*ast.Ident); ok && len(c.Args) == 1 {
-							return "return " + f.Sel.Name + "." + m.Sel.Name + "(" + noSpace(types.ExprString(c.Args[0])) + ")"
+							return "return " + f.Sel.Name + "." + m.Sel.Name + "(" + rxNoSpace(types.ExprString(c.Args[0])) + ")"
 						}
 					}
 				}
 			}
 		}
 	}
-	return "?" + srcOf(p.fset, s)
+	return "?" + isoSrcOf(p.fset, s)
 }
 
 func extractIsolated(repo string, fx *Facts) {
@@ -128,7 +128,7 @@ func extractIsolated(repo string, fx *Facts) {
 						for _, fl := range st.Fields.List {
 							for _, nm := range fl.Names {
 								if nm.Name == "isRunning" {
-									f.FlagType = noSpace(types.ExprString(fl.Type))
+									f.FlagType = rxNoSpace(types.ExprString(fl.Type))
 								}
 							}
 						}
@@ -173,7 +173,7 @@ func extractIsolated(repo string, fx *Facts) {
 				found = true
 				for _, e := range cl.Elts {
 					if kv, ok := e.(*ast.KeyValueExpr); ok {
-						f.CtorKeys = append(f.CtorKeys, noSpace(types.ExprString(kv.Key)))
+						f.CtorKeys = append(f.CtorKeys, rxNoSpace(types.ExprString(kv.Key)))
 					} else {
 						f.CtorKeys = append(f.CtorKeys, "?positional")
 					}
